@@ -49,3 +49,25 @@ package mpckks
 //@ noescape ShareToEncProtocol.GetEncryption c0Agg
 //@   property C09
 
+
+// ---- masked transform / refresh (property C16, "the result ... decrypts to the same plaintext"): the
+// ---- re-encrypted payload is rescaled to the DEFAULT scale of the output parameters, so on success the
+// ---- output ciphertext records exactly that scale, whatever scale the input and the receiver had; its
+// ---- other metadata are the input's, with IsBatched = transform.Encode when a transform is given
+//@ afunc EncToShareProtocol.GetShare
+//@   trusted the decryption share of the mask (integer encoder path): writes the additive share only
+//@   assigns secretShareOut
+//@ afunc MaskedLinearTransformationProtocol.applyTransformAndScale
+//@   trusted decoding, the user's function and re-encoding act on the big-integer mask only
+//@   assigns mask
+//@ afunc MaskedLinearTransformationProtocol.Transform
+//@   property C16
+//@   case true ; set transform = nil
+//@   case true
+//@   case true ; alias ciphertextOut = ct
+//@   requires len(ciphertextOut.Value) == 2
+//@   requires dom(share.ShareToEncShare.Value) == ite(ct.MetaData.CiphertextMetaData.IsNTT, 1, 0) && mexp(share.ShareToEncShare.Value) == ite(ct.MetaData.CiphertextMetaData.IsMontgomery, 1, 0)
+//@   ensures implies(isnil(err), sameval(ciphertextOut.MetaData.PlaintextMetaData.Scale, mltp.s2e.params.Parameters.defaultScale))
+//@   ensures implies(isnil(err), iff(ciphertextOut.MetaData.CiphertextMetaData.IsNTT, old(ct.MetaData.CiphertextMetaData.IsNTT)) && iff(ciphertextOut.MetaData.CiphertextMetaData.IsMontgomery, old(ct.MetaData.CiphertextMetaData.IsMontgomery)))
+//@   ensures implies(isnil(err) && !isnil(transform), iff(ciphertextOut.MetaData.PlaintextMetaData.IsBatched, transform.Encode))
+//@   ensures implies(isnil(err) && isnil(transform), iff(ciphertextOut.MetaData.PlaintextMetaData.IsBatched, old(ct.MetaData.PlaintextMetaData.IsBatched)))
